@@ -22,6 +22,12 @@ static const double K_ELL = 32;       // relative error of an integral [eps]
 static const double K_JAC = 16;       // Jacobi functions: absolute error in units of eps * (|value| + conditioning)
 static const double K_CARLSON = 32;
 
+// known-finding regimes: one key per defect, decided from the inputs only (see harness/C15.cpp)
+static std::string g_regime;
+struct Regime { std::string old; explicit Regime(const std::string& r) : old(g_regime) { g_regime = r; } ~Regime() { g_regime = old; } };
+static void VIOL(Ctx& c, const std::string& key, const std::string& cls, const J& d) {
+  if (g_regime.empty() || key == g_regime) c.viol(key, cls, d); else c.viol(g_regime, cls, J(d).str("monitor", key)); }
+
 static const double LADDER[] = {-1e6, -100, -1, -1e-9, 0, 1e-9, 0.5, 1 - 1e-3, 1 - 1e-9, 1 - 1e-15, 1};
 static const int NL = 11;
 
@@ -61,7 +67,17 @@ static Obj* pick_obj(vh::Rng& r, std::unique_ptr<Obj>& own) {
 }
 // regime in which Pi, G, H call R_J with widely separated arguments (reported separately: R_J loses accuracy there)
 static bool rj_stressed(const Obj& o) { return o.a2 != 0 && (o.ap2 < 1e-6 || o.a2 < -10 || o.kp2 < 1e-6 || o.k2 < -1e4); }
-static const char* RJKEY = "oracle:C15/elliptic/Pi-G-H/RJ-stressed(alpha2->1|alpha2<-10|k2->1|k2<-1e4)";
+static const char* RJKEY = "regime:C15/elliptic/Pi-G-H/RJ-stressed(alpha2->1|alpha2<-10|k2->1|k2<-1e4)";
+static const char* G4KEY = "regime:C15/elliptic/G/4-arg-ctor-kp2<0.1-alphap2<0.1";
+static const char* RGKEY = "regime:C15/elliptic/carlson/RG/argument-spread>1e3";
+// regime of one Legendre function (fixed order): G with the 4-argument constructor and both complements < 0.1 (alpha2-k2 cancels);
+// Pi/G/H when R_J is called with widely separated arguments; E when E() = 2 R_G(k'^2,1) has k'^2 < 1e-20
+static std::string legendre_regime(const Obj& o, int i) {
+  if (o.four && i == ref::EL_G && o.kp2 < 0.1 && o.ap2 < 0.1) return G4KEY;
+  if (i >= 3 && rj_stressed(o)) return RJKEY;
+  if (i == ref::EL_E && o.kp2 > 0 && o.kp2 < 1e-20) return RGKEY;
+  return "";
+}
 static J jobj(const Obj& o) { J j; j.f("k2", o.k2).f("alpha2", o.a2); if (o.four) j.f("kp2", o.kp2).f("alphap2", o.ap2); return j; }
 
 static double gen_phi(vh::Rng& r, const char*& cls) {
@@ -101,18 +117,13 @@ static void sec_legendre(Ctx& c, uint64_t) {
       if (i >= 3 && !isinfq(R.C[i]) && !isinfq(R.C[0]) && R.C[i] != 0) cond = (double)((fabsq(R.C[0]) + fabsq(R.C[i] - R.C[0])) / fabsq(R.C[i]));
       c.obs(std::string("complete ") + FN[i] + " rel err [eps]", e, w);
       c.obs(std::string("complete ") + FN[i] + " rel err / cancellation conditioning [eps]", e / cond, w);
-      if (!(e <= K_ELL * cond)) {
-        std::string key = std::string("oracle:C15/elliptic/complete/") + FN[i];
-        if (O.four && i == ref::EL_G && O.kp2 < 0.1 && O.ap2 < 0.1) key = "oracle:C15/elliptic/G/4-arg-ctor-alpha2-minus-k2-cancellation";
-        else if (i >= 3 && rj_stressed(O) && e <= 1e9 * cond) key = RJKEY;
-        else if (i == ref::EL_E && O.kp2 > 0 && O.kp2 < 1e-20 && e <= 128) key = "oracle:C15/elliptic/carlson/RG/argument-spread>1e3";   // E() = 2 R_G(k'^2, 1)
-        c.viol(key, cls, w);
-      }
+      Regime rg_(legendre_regime(O, i));
+      if (!(e <= K_ELL * cond)) VIOL(c, std::string("oracle:C15/elliptic/complete/") + FN[i], cls, w);
     }
     double eke = relerr(L.KE(), R.divergent[0] ? EllRef::inf() : R.k2 * R.C[ref::EL_D]);
-    if (O.k2 != 0) { c.obs("complete KE = K-E rel err [eps]", eke, jobj(O)); if (!(eke <= K_ELL)) c.viol("oracle:C15/elliptic/complete/KE", cls, J(jobj(O)).f("got", L.KE())); }
+    if (O.k2 != 0) { c.obs("complete KE = K-E rel err [eps]", eke, jobj(O)); if (!(eke <= K_ELL)) VIOL(c, "oracle:C15/elliptic/complete/KE", cls, J(jobj(O)).f("got", L.KE())); }
     if (c.want_sample(cls)) c.sample(cls, jobj(O));
-    if (!(L.k2() == O.k2 && L.kp2() == O.kp2 && L.alpha2() == O.a2 && L.alphap2() == O.ap2)) c.viol("law:C15/elliptic/inspectors", cls, jobj(O));
+    if (!(L.k2() == O.k2 && L.kp2() == O.kp2 && L.alpha2() == O.a2 && L.alphap2() == O.ap2)) VIOL(c, "law:C15/elliptic/inspectors", cls, jobj(O));
   }
   for (int rep = 0; rep < 6; ++rep) {
     const char* pc; double phi = gen_phi(r, pc);
@@ -130,7 +141,7 @@ static void sec_legendre(Ctx& c, uint64_t) {
     // Delta
     { double ed = relerr(dn, R.delta(sq, cq)); c.obs("Delta(sn,cn) rel err [eps]", ed, J(jobj(O)).f("phi", phi));
       // Delta^2 = k'^2 + k^2 cn^2 uses the rounded cos: condition number k^2 cn^2 / Delta^2 <= 1, so a few eps
-      if (!(ed <= 8)) c.viol("oracle:C15/elliptic/Delta", cls, J(jobj(O)).f("phi", phi).f("got", dn).str("want", ref::qstr(R.delta(sq, cq)))); }
+      if (!(ed <= 8)) VIOL(c, "oracle:C15/elliptic/Delta", cls, J(jobj(O)).f("phi", phi).f("got", dn).str("want", ref::qstr(R.delta(sq, cq)))); }
     // (sn,cn,dn) overloads are "as though phi in (-pi,pi]": reference at atan2(sn,cn)
     QV<6> W3 = R.at_sc((q128)sn, (q128)cn);
     QV<6> Wq = R.at_sc(fabsq((q128)sn), fabsq((q128)cn));      // the first-quadrant piece that the library actually forms from R_F, R_D, R_J
@@ -138,6 +149,7 @@ static void sec_legendre(Ctx& c, uint64_t) {
     for (int i = 0; i < 6; ++i) {
       bool div = R.divergent[i];
       J w(jobj(O)); w.str("fn", FN[i]).f("phi", phi).str("phi_class", pc);
+      Regime rg_(legendre_regime(O, i));
       // cancellation conditioning of the documented R_F + coeff * R_J combination (see the complete integrals)
       double cc = 1, cc3 = 1;
       if (i >= 3) { if (!isinfq(W[i]) && !isinfq(W[0]) && W[i] != 0) cc = (double)((fabsq(W[0]) + fabsq(W[i] - W[0])) / fabsq(W[i]));
@@ -157,14 +169,14 @@ static void sec_legendre(Ctx& c, uint64_t) {
         c.obs(std::string("incomplete ") + FN[i] + "(phi) rel err beyond +-1ulp(phi) conditioning [eps]", std::max(0.0, e - condslack), J(w).f("got", got[i]).str("want", ref::qstr(W[i])));
         if (O.k2 >= -10 && O.kp2 >= 1e-4 && O.a2 >= -10 && O.ap2 >= 1e-4) c.obs(std::string("NORMAL REGIME (-10<=k2<=1-1e-4, -10<=alpha2<=1-1e-4) incomplete ") + FN[i] + "(phi) rel err / cancellation conditioning [eps]", e / cc, J(w).f("got", got[i]).str("want", ref::qstr(W[i])));
         c.obs(std::string("incomplete ") + FN[i] + "(phi) rel err / cancellation conditioning [eps]", e / cc, J(w).f("got", got[i]).str("want", ref::qstr(W[i])));
-        if (!(e <= K_ELL * cc + condslack)) c.viol(four_g ? std::string("oracle:C15/elliptic/G/4-arg-ctor-alpha2-minus-k2-cancellation") : (i >= 3 && rj_stressed(O) && e <= 1e9 * cc ? std::string(RJKEY) : (i == ref::EL_E && O.kp2 > 0 && O.kp2 < 1e-20 && e <= 256 ? std::string("oracle:C15/elliptic/carlson/RG/argument-spread>1e3") : std::string("oracle:C15/elliptic/incomplete/") + FN[i])), cls, J(w).f("got", got[i]).str("want", ref::qstr(W[i])).f("err_eps", e).f("cond_slack_eps", condslack));
+        if (!(e <= K_ELL * cc + condslack)) VIOL(c, std::string("oracle:C15/elliptic/incomplete/") + FN[i], cls, J(w).f("got", got[i]).str("want", ref::qstr(W[i])).f("err_eps", e).f("cond_slack_eps", condslack));
       } else c.event("divergent integral beyond pi/2 not judged");
       // --- (sn,cn,dn) overload
       bool beyond3 = signbitq((q128)cn);
       if (!(div && beyond3) && !unrep) {
         double e = relerr(got3[i], W3[i]);
         c.obs(std::string("incomplete ") + FN[i] + "(sn,cn,dn) rel err [eps]", e, J(w).f("got", got3[i]).str("want", ref::qstr(W3[i])));
-        if (!(e <= K_ELL * cc3)) c.viol(four_g ? std::string("oracle:C15/elliptic/G/4-arg-ctor-alpha2-minus-k2-cancellation") : (i >= 3 && rj_stressed(O) && e <= 1e9 * cc3 ? std::string(RJKEY) : (i == ref::EL_E && O.kp2 > 0 && O.kp2 < 1e-20 && e <= 256 ? std::string("oracle:C15/elliptic/carlson/RG/argument-spread>1e3") : std::string("oracle:C15/elliptic/incomplete-sncndn/") + FN[i])), cls, J(w).f("sn", sn).f("cn", cn).f("dn", dn).f("got", got3[i]).str("want", ref::qstr(W3[i])).f("err_eps", e));
+        if (!(e <= K_ELL * cc3)) VIOL(c, std::string("oracle:C15/elliptic/incomplete-sncndn/") + FN[i], cls, J(w).f("sn", sn).f("cn", cn).f("dn", dn).f("got", got3[i]).str("want", ref::qstr(W3[i])).f("err_eps", e));
       }
       // --- periodic part: pi I(phi) / (2 I_c) - phi, period pi, odd.  Reference at the angle in (-pi/2, pi/2] equivalent mod pi
       if (!div && fabsq(phr) > 1e-290Q) {
@@ -175,17 +187,17 @@ static void sec_legendre(Ctx& c, uint64_t) {
         double c0 = i >= 3 ? (double)((fabsq(R.C[0]) + fabsq(R.C[i] - R.C[0])) / fabsq(R.C[i])) : 1;
         double e = (double)(fabsq((q128)gotd[i] - want) / (fabsq(pr) + fabsq(want))) / EPS / std::max(std::max(cc3, c0), 1.0);
         c.obs(std::string("delta") + FN[i] + " abs err / (|phi|+|delta|) [eps]", e, J(w).f("got", gotd[i]).str("want", ref::qstr(want)));
-        if (!(e <= K_ELL)) c.viol(four_g ? std::string("oracle:C15/elliptic/G/4-arg-ctor-alpha2-minus-k2-cancellation") : (i >= 3 && rj_stressed(O) && e <= 1e9 ? std::string(RJKEY) : std::string("oracle:C15/elliptic/delta/") + FN[i]), cls, J(w).f("sn", sn).f("cn", cn).f("dn", dn).f("got", gotd[i]).str("want", ref::qstr(want)).f("err_eps", e));
+        if (!(e <= K_ELL)) VIOL(c, std::string("oracle:C15/elliptic/delta/") + FN[i], cls, J(w).f("sn", sn).f("cn", cn).f("dn", dn).f("got", gotd[i]).str("want", ref::qstr(want)).f("err_eps", e));
       }
     }
     // oddness (bit-exact) of the real-argument and the sn-cn-dn overloads
     if (!(vh::same_bits(L.F(-phi), -got[0]) && vh::same_bits(L.E(-phi), -got[1]) && vh::same_bits(L.Pi(-phi), -got[3]) && vh::same_bits(L.H(-sn, cn, dn), -got3[5])))
-      if (!(std::isnan(got[0]) || std::isnan(got[3]))) c.viol("law:C15/elliptic/odd", cls, J(jobj(O)).f("phi", phi));
+      if (!(std::isnan(got[0]) || std::isnan(got[3]))) VIOL(c, "law:C15/elliptic/odd", cls, J(jobj(O)).f("phi", phi));
     // documented reductions for alpha2 = 0: Pi = F, G = E, H = F - D
     if (O.a2 == 0 && !(R.ksing && beyond)) {
       double e1 = relerr(got[3], (q128)got[0]), e2 = relerr(got[4], (q128)got[1]);
       double cg = got[4] != 0 ? (std::fabs(got[0]) + std::fabs(got[4] - got[0])) / std::fabs(got[4]) : 1;    // G = R_F-term - R_J-term
-      if (!(e1 <= 2 * K_ELL && e2 <= 2 * K_ELL * cg)) c.viol("law:C15/elliptic/alpha2=0-reductions", cls, J(jobj(O)).f("phi", phi).f("Pi", got[3]).f("F", got[0]).f("G", got[4]).f("E", got[1]));
+      if (!(e1 <= 2 * K_ELL && e2 <= 2 * K_ELL * cg)) VIOL(c, "law:C15/elliptic/alpha2=0-reductions", cls, J(jobj(O)).f("phi", phi).f("Pi", got[3]).f("F", got[0]).f("G", got[4]).f("E", got[1]));
     }
     // Ed (degrees): E at the angle given in degrees, any number of turns
     if (rep == 0) {
@@ -193,7 +205,7 @@ static void sec_legendre(Ctx& c, uint64_t) {
       q128 want = R.at((q128)ang * (M_PIq / 180))[ref::EL_E];
       double g = L.Ed(ang), e = relerr(g, want);
       if (O.k2 != 0 || true) { c.count("Ed/" + O.cls, vh::hmix(vh::hmix(103, O.k2), ang)); c.obs("Ed(deg) rel err [eps]", e, J(jobj(O)).f("ang", ang).f("got", g).str("want", ref::qstr(want)));
-        if (!(e <= K_ELL)) c.viol("oracle:C15/elliptic/Ed", "Ed/" + O.cls, J(jobj(O)).f("ang", ang).f("got", g).str("want", ref::qstr(want)).f("err_eps", e)); }
+        if (!(e <= K_ELL)) VIOL(c, "oracle:C15/elliptic/Ed", "Ed/" + O.cls, J(jobj(O)).f("ang", ang).f("got", g).str("want", ref::qstr(want)).f("err_eps", e)); }
     }
     (void)n;
   }
@@ -212,11 +224,11 @@ static void sec_ident(Ctx& c, uint64_t) {
   q128 mag = fabsq((q128)a.E() * b.K()) + fabsq((q128)b.E() * a.K()) + fabsq((q128)a.K() * b.K());
   double e = (double)(fabsq(lhs - M_PIq / 2) / mag) / EPS;
   c.obs("Legendre relation residual / sum of |terms| [eps]", e, J().f("k2", k2));
-  if (!(e <= 8)) c.viol("law:C15/elliptic/legendre-relation", cls, J().f("k2", k2).f("K", a.K()).f("E", a.E()).f("Kp", b.K()).f("Ep", b.E()));
+  if (!(e <= 8)) VIOL(c, "law:C15/elliptic/legendre-relation", cls, J().f("k2", k2).f("K", a.K()).f("E", a.E()).f("Kp", b.K()).f("Ep", b.E()));
   // KE = K - E = k2 D
   double e2 = relerr(a.KE(), (q128)a.K() - (q128)a.E());
   double cond = (double)(((q128)a.K() + (q128)a.E()) / ((q128)a.K() - (q128)a.E()));
-  if (!(e2 <= 4 * cond)) c.viol("law:C15/elliptic/KE-consistency", cls, J().f("k2", k2).f("KE", a.KE()).f("K", a.K()).f("E", a.E()));
+  if (!(e2 <= 4 * cond)) VIOL(c, "law:C15/elliptic/KE-consistency", cls, J().f("k2", k2).f("KE", a.KE()).f("K", a.K()).f("E", a.E()));
   // constructor argument checks
   if ((c.idx % 16) == 0) {
     auto throws = [](double k2_, double a2_, double kp2_, double ap2_) { try { EllipticFunction z(k2_, a2_, kp2_, ap2_); (void)z; return false; } catch (const GeographicErr&) { return true; } };
@@ -225,11 +237,11 @@ static void sec_ident(Ctx& c, uint64_t) {
     bool ok2; try { EllipticFunction z(vh::ulps(1.0, 1), 0); (void)z; ok2 = false; } catch (const GeographicErr&) { ok2 = true; }
     bool ok3; try { EllipticFunction z(0.5, vh::ulps(1.0, 1)); (void)z; ok3 = false; } catch (const GeographicErr&) { ok3 = true; }
     c.count("ctor/illegal-parameters-throw", vh::hmix(112, big), true);
-    if (!(ok && ok2 && ok3)) c.viol("law:C15/elliptic/ctor-accepts-illegal-parameter", "ctor", J().f("big", big));
+    if (!(ok && ok2 && ok3)) VIOL(c, "law:C15/elliptic/ctor-accepts-illegal-parameter", "ctor", J().f("big", big));
     // Reset gives the same state as a fresh object
     EllipticFunction z(0.3, 0.1); z.Reset(k2, 0, kp2, 1);
     if (!(vh::same_bits(z.K(), a.K()) && vh::same_bits(z.E(), a.E()) && vh::same_bits(z.D(), a.D()) && vh::same_bits(z.H(), a.H()) && vh::same_bits(z.F(0.7), a.F(0.7))))
-      c.viol("law:C15/elliptic/Reset-differs-from-fresh-object", "ctor", J().f("k2", k2));
+      VIOL(c, "law:C15/elliptic/Reset-differs-from-fresh-object", "ctor", J().f("k2", k2));
   }
 }
 
@@ -264,38 +276,36 @@ static void sec_jacobi(Ctx& c, uint64_t) {
     auto judge = [&](const char* what, double got, q128 want, q128 tol) {
       double e = tol == 0 ? ((q128)got == want ? 0 : HUGE_VAL) : (double)(fabsq((q128)got - want) / tol) / EPS;
       c.obs(std::string("jacobi ") + what + " err / (|value| + conditioning) [eps] (" + kc + ")", e, J(w).f("got", got).str("want", ref::qstr(want)));
-      if (!(e <= K_JAC)) {
-        std::string key = std::string("oracle:C15/elliptic/jacobi/") + what;
-        if (std::isnan(got) && std::fabs(x) < 1e-150 && what[0] == 's' && what[1] == 'n') key = "oracle:C15/elliptic/jacobi/sncndn/nan-for-|x|<1e-150";
-        else if (hard) { // keep the absolute accuracy requirement even here: these are bounded functions
-          double ea = (double)(fabsq((q128)got - want) / (1 + ax + fabsq(want))) / EPS;
-          key = ea <= 64 ? std::string("oracle:C15/elliptic/jacobi/relative-accuracy-lost/k2->1-or-k2<-10") : std::string("oracle:C15/elliptic/jacobi/am-inaccurate/k2->1-or-k2<-10"); }
-        c.viol(key, cls, J(w).f("got", got).str("want", ref::qstr(want)).f("err_eps", e)); } };
+      if (!(e <= K_JAC)) VIOL(c, std::string("oracle:C15/elliptic/jacobi/") + what, cls, J(w).f("got", got).str("want", ref::qstr(want)).f("err_eps", e)); };
+    // am() regime: modulus close to 1 (k'^2 < 1e-4) or k^2 < -10 (imaginary-modulus transformation lands near 1).  sncndn is NOT in it.
+    std::unique_ptr<Regime> rgam(new Regime(hard ? "regime:C15/elliptic/am/k2->1(kp2<1e-4)-or-k2<-10" : ""));
     double s1, c1, d1, a1 = L.am(x, s1, c1, d1), a0 = L.am(x);
     judge("am", a1, am, tam); judge("am(x,sn,cn,dn).sn", s1, sn, tsn); judge("am(x,sn,cn,dn).cn", c1, cn, tcn); judge("am(x,sn,cn,dn).dn", d1, dn, tdn);
-    if (!vh::same_bits(a0, a1)) c.viol("law:C15/elliptic/jacobi/am-overloads-differ", cls, w);
+    if (!vh::same_bits(a0, a1)) VIOL(c, "law:C15/elliptic/jacobi/am-overloads-differ", cls, w);
     // identities on the returned triple
     { double i1 = std::fabs(s1 * s1 + c1 * c1 - 1) / EPS, i2 = (double)(fabsq((q128)d1 * d1 + (q128)O.k2 * s1 * s1 - 1) / (1 + k2a * s1 * s1)) / EPS;
       c.obs("jacobi am-triple |sn^2+cn^2-1| [eps]", i1, w); c.obs("jacobi am-triple |dn^2+k2 sn^2-1| / (1+|k2| sn^2) [eps]", i2, w);
-      if (!(i1 <= 4 && i2 <= 4)) c.viol(hard ? "law:C15/elliptic/jacobi/am-triple-identities/k2->1-or-k2<-10" : "law:C15/elliptic/jacobi/am-triple-identities", cls, J(w).f("sn", s1).f("cn", c1).f("dn", d1)); }
+      if (!(i1 <= 4 && i2 <= 4)) VIOL(c, "law:C15/elliptic/jacobi/am-triple-identities", cls, J(w).f("sn", s1).f("cn", c1).f("dn", d1)); }
+    rgam.reset();
     // sncndn: documented for 0 <= k <= 1 only
     if (O.k2 >= 0) {
+      Regime rgs_(std::fabs(x) < 1e-150 ? "regime:C15/elliptic/sncndn/|x|<1e-150" : "");
       double s2, c2, d2; L.sncndn(x, s2, c2, d2);
       bool tinynan0 = std::fabs(x) < 1e-150 && (std::isnan(s2) || std::isnan(d2) || (s2 == 0 && c2 == 0));
       if (!tinynan0) { judge("sncndn.sn", s2, sn, tsn); judge("sncndn.cn", c2, cn, tcn); judge("sncndn.dn", d2, dn, tdn); }
       double i1 = std::fabs(s2 * s2 + c2 * c2 - 1) / EPS, i2 = std::fabs(d2 * d2 + O.k2 * s2 * s2 - 1) / EPS;
       c.obs("jacobi sncndn |sn^2+cn^2-1| [eps]", i1, w); c.obs("jacobi sncndn |dn^2+k2 sn^2-1| [eps]", i2, w);
       bool tinynan = std::fabs(x) < 1e-150 && (std::isnan(s2) || std::isnan(d2) || (s2 == 0 && c2 == 0));
-      if (tinynan) c.viol("oracle:C15/elliptic/jacobi/sncndn/nan-for-|x|<1e-150", cls, J(w).f("sn", s2).f("cn", c2).f("dn", d2));
-      else if (!(i1 <= 4 && i2 <= 4)) c.viol("law:C15/elliptic/jacobi/sncndn-identities", cls, J(w).f("sn", s2).f("cn", c2).f("dn", d2));
+      if (tinynan) VIOL(c, "oracle:C15/elliptic/jacobi/sncndn/nan", cls, J(w).f("sn", s2).f("cn", c2).f("dn", d2));
+      else if (!(i1 <= 4 && i2 <= 4)) VIOL(c, "law:C15/elliptic/jacobi/sncndn-identities", cls, J(w).f("sn", s2).f("cn", c2).f("dn", d2));
       // oddness / evenness, bit-exact
       double s3, c3, d3; L.sncndn(-x, s3, c3, d3);
-      if (!tinynan && !(vh::same_bits(s3, -s2) && vh::same_bits(c3, c2) && vh::same_bits(d3, d2))) c.viol("law:C15/elliptic/jacobi/sncndn-parity", cls, w);
+      if (!tinynan && !(vh::same_bits(s3, -s2) && vh::same_bits(c3, c2) && vh::same_bits(d3, d2))) VIOL(c, "law:C15/elliptic/jacobi/sncndn-parity", cls, w);
       // F(sn,cn,dn) inverts sncndn within one period
       if (std::isfinite(K) && std::fabs(x) < K && !tinynan && !hard) {
         double back = L.F(s2, c2, d2); double e = (double)(fabsq((q128)back - (q128)x) / (ax + (q128)1e-300)) / EPS;
         c.obs("F(sncndn(x)) round trip rel err [eps]", e, w);
-        if (!(e <= 4 * K_JAC)) c.viol("law:C15/elliptic/jacobi/F-of-sncndn", cls, J(w).f("back", back));
+        if (!(e <= 4 * K_JAC)) VIOL(c, "law:C15/elliptic/jacobi/F-of-sncndn", cls, J(w).f("back", back));
       }
     }
     // am is the inverse of F: F(am(x)) = x
@@ -304,7 +314,7 @@ static void sec_jacobi(Ctx& c, uint64_t) {
       // dF/dphi = 1/dn : the rounding of am (eps |am|) is amplified by 1/dn
       double cond = 1 + (double)(fabsq(am) / (dn * (ax + (q128)1e-300)));
       c.obs("F(am(x)) round trip rel err / conditioning [eps]", e / cond, w);
-      if (!(e <= 4 * K_JAC * cond)) c.viol("law:C15/elliptic/jacobi/F-of-am", cls, J(w).f("am", a1).f("back", back));
+      if (!(e <= 4 * K_JAC * cond)) VIOL(c, "law:C15/elliptic/jacobi/F-of-am", cls, J(w).f("am", a1).f("back", back));
     }
   }
 }
@@ -327,7 +337,7 @@ static void sec_einv(Ctx& c, uint64_t) {
     // backward check through the defining integral: E_ref(phi) - x, mapped to phi by dE/dphi = Delta
     q128 Ew = R.at((q128)phi)[ref::EL_E]; q128 s, co; sincosq((q128)phi, &s, &co); q128 dl = R.delta(s, co);
     J w(jobj(O)); w.f("x", x).f("phi", phi).str("x_class", xc);
-    if (x == 0) { if (phi != 0) c.viol("oracle:C15/elliptic/Einv", cls, w); }
+    if (x == 0) { if (phi != 0) VIOL(c, "oracle:C15/elliptic/Einv", cls, w); }
     else if (dl > 0) {
       q128 dphi = (Ew - (q128)x) / dl;
       q128 tol = fabsq((q128)phi) + fabsq((q128)x) / dl;        // rounding of phi itself + conditioning w.r.t. x
@@ -335,11 +345,12 @@ static void sec_einv(Ctx& c, uint64_t) {
       c.obs("Einv(x): error in phi / (|phi| + |x|/Delta) [eps]", e, J(w).str("E_ref_of_phi", ref::qstr(Ew)));
       // Einv stops its Newton iteration on an absolute tolerance sqrt(eps/100): with a large |k2| (strong curvature) and a small
       // result the last step leaves a relative error above round-off
-      if (!(e <= K_ELL)) c.viol(O.k2 < -10 && std::fabs(phi) < 1e-3 ? "oracle:C15/elliptic/Einv-absolute-newton-tolerance/k2<-10-small-phi" : "oracle:C15/elliptic/Einv", cls, J(w).str("E_ref_of_phi", ref::qstr(Ew)).f("err_eps", e));
+      Regime rge_(O.k2 < -10 && std::fabs(phi) < 1e-3 ? "regime:C15/elliptic/Einv/k2<-10-small-phi" : "");
+      if (!(e <= K_ELL)) VIOL(c, "oracle:C15/elliptic/Einv", cls, J(w).str("E_ref_of_phi", ref::qstr(Ew)).f("err_eps", e));
     } else {
       // k2 = 1 at phi = pi/2 (mod pi): E has zero slope; judge the residual in E
       double e = relerr((double)Ew, (q128)x); c.obs("Einv(x) at Delta=0: residual in E [eps]", e, w);
-      if (!(e <= 64)) c.viol("oracle:C15/elliptic/Einv/k2=1-turning-point", cls, J(w).str("E_ref_of_phi", ref::qstr(Ew)));
+      if (!(e <= 64)) VIOL(c, "oracle:C15/elliptic/Einv/k2=1-turning-point", cls, J(w).str("E_ref_of_phi", ref::qstr(Ew)));
     }
     // deltaEinv(stau, ctau) = Einv(tau 2E/pi) - tau, period pi
     double tau = r.coin(0.2) ? r.sign() * r.logu(1e-300, 1e-3) : r.uniform(-M_PI, M_PI), st = std::sin(tau), ct = std::cos(tau);
@@ -353,7 +364,8 @@ static void sec_einv(Ctx& c, uint64_t) {
       c.obs("deltaEinv: error in phi / (|tau| + |x|/Delta) [eps]", e, J(jobj(O)).f("tau", tau).f("got", de));
       // Einv stops its Newton iteration on an absolute tolerance sqrt(eps/100): for small results with a large |k2| (strong curvature)
       // the last step leaves a relative error above round-off
-      if (!(e <= K_ELL)) c.viol(O.k2 < -10 && std::fabs(tau) < 1e-3 ? "oracle:C15/elliptic/Einv-absolute-newton-tolerance/k2<-10-small-phi" : "oracle:C15/elliptic/deltaEinv", cls, J(jobj(O)).f("tau", tau).f("stau", st).f("ctau", ct).f("got", de).f("err_eps", e));
+      Regime rge_(O.k2 < -10 && std::fabs(tau) < 1e-3 ? "regime:C15/elliptic/Einv/k2<-10-small-phi" : "");
+      if (!(e <= K_ELL)) VIOL(c, "oracle:C15/elliptic/deltaEinv", cls, J(jobj(O)).f("tau", tau).f("stau", st).f("ctau", ct).f("got", de).f("err_eps", e));
     }
   }
 }
@@ -387,7 +399,7 @@ static void sec_carlson(Ctx& c, uint64_t idx) {
   double spread = amax / amin; const char* sb = spread <= 1e3 ? "spread<=1e3" : spread <= 1e6 ? "spread<=1e6" : spread <= 1e12 ? "spread<=1e12" : spread <= 1e30 ? "spread<=1e30" : "spread>1e30";
   bool bigmag = amax > 1e75 || amin < 1e-75;      // products of three arguments leave the double range
   double e = relerr(got, want);
-  bool unrepresentable = fabsq(want) > 1e300Q || fabsq(want) < 1e-300Q;
+  bool unrepresentable = fabsq(want) > 1e290Q || fabsq(want) < 1e-290Q;      // results next to the overflow/underflow thresholds are not judged
   w.f("got", got).str("want", ref::qstr(want)).f("err_eps", e);
   if (c.want_sample(cls)) c.sample(cls, w);
   c.obs(std::string("carlson ") + KN[kind] + " rel err [eps] (" + sb + (bigmag ? ", magnitudes beyond 1e+-75)" : ")"), unrepresentable ? 0 : e, w);
@@ -397,21 +409,20 @@ static void sec_carlson(Ctx& c, uint64_t idx) {
     q128 t1 = (q128)z * ref::carlson(ref::C_RF, x, y, z), t2 = ((q128)x - z) * ((q128)y - z) * ref::carlson(ref::C_RD, x, y, z) / 3, t3 = sqrtq((q128)x * y / z);
     double cnd = (double)((fabsq(t1) + fabsq(t2) + fabsq(t3)) / (2 * fabsq(want)));
     c.obs("carlson RG3 rel err / cancellation conditioning of (1.7) [eps] (spread<=1e3)", e / cnd, w); kcar *= cnd; }
-  if (!(e <= kcar) && !unrepresentable) {
-    std::string key = std::string("oracle:C15/elliptic/carlson/") + KN[kind];
-    if (bigmag) key = "oracle:C15/elliptic/carlson/overflow-underflow/magnitudes-beyond-1e+-75";
-    else if (spread > 1e3) key = std::string("oracle:C15/elliptic/carlson/") + (kind == 3 || kind == 4 ? "RG" : KN[kind]) + "/argument-spread>1e3";
-    c.viol(key, cls, w);
-  }
+  // regimes (inputs only, fixed order): some argument beyond 1e+-75 (products leave the double range); R_J / R_G with max/min argument ratio > 1e3
+  // (R_F, both forms, and R_D are accurate for any magnitudes on the unchanged tree: they stay outside the overflow regime)
+  bool ovf_kind = kind == 2 || kind == 3 || kind == 4 || kind == 5;
+  Regime rgc_(bigmag && ovf_kind ? "regime:C15/elliptic/carlson/magnitudes-beyond-1e+-75" : (spread > 1e3 && kind == 5 ? "regime:C15/elliptic/carlson/RJ/argument-spread>1e3" : (spread > 1e3 && (kind == 3 || kind == 4) ? RGKEY : "")));
+  if (!(e <= kcar) && !unrepresentable) VIOL(c, std::string("oracle:C15/elliptic/carlson/") + KN[kind], cls, w);
   // symmetry and homogeneity laws (moderate arguments)
   if (!wide && spread <= 1e3) {
-    if (kind == 0) { double a = EllipticFunction::RF(y, z, x), b = EllipticFunction::RF(z, x, y); if (!(relerr(a, (q128)got) <= 8 && relerr(b, (q128)got) <= 8)) c.viol("law:C15/elliptic/carlson/RF-symmetry", cls, w);
-      double s = std::ldexp(1.0, 2 * r.range(-20, 20)), h = EllipticFunction::RF(x * s, y * s, z * s) * std::sqrt(s); if (!(relerr(h, (q128)got) <= 4)) c.viol("law:C15/elliptic/carlson/RF-homogeneity", cls, J(w).f("scale", s)); }
-    if (kind == 3 && spread <= 10) { double a = EllipticFunction::RG(y, z, x), b = EllipticFunction::RG(z, x, y); if (!(relerr(a, (q128)got) <= 32 && relerr(b, (q128)got) <= 32)) c.viol("law:C15/elliptic/carlson/RG-symmetry", cls, J(w).f("perm1", a).f("perm2", b)); }
-    if (kind == 5) { double a = EllipticFunction::RJ(y, z, x, p); if (!(relerr(a, (q128)got) <= 16)) c.viol("law:C15/elliptic/carlson/RJ-symmetry", cls, J(w).f("perm", a)); }
-    if (kind == 6) { double a = EllipticFunction::RD(y, x, z); if (!(relerr(a, (q128)got) <= 8)) c.viol("law:C15/elliptic/carlson/RD-symmetry", cls, J(w).f("perm", a));
-      if (x > 0) { double j = EllipticFunction::RJ(x, y, z, z); if (!(relerr(j, (q128)got) <= 16)) c.viol("law:C15/elliptic/carlson/RD=RJ(x,y,z,z)", cls, J(w).f("RJ", j)); } }
-    if (kind == 2) { double f = EllipticFunction::RF(x, y, y); if (!(relerr(f, (q128)got) <= 8)) c.viol("law:C15/elliptic/carlson/RC=RF(x,y,y)", cls, J(w).f("RF", f)); }
+    if (kind == 0) { double a = EllipticFunction::RF(y, z, x), b = EllipticFunction::RF(z, x, y); if (!(relerr(a, (q128)got) <= 8 && relerr(b, (q128)got) <= 8)) VIOL(c, "law:C15/elliptic/carlson/RF-symmetry", cls, w);
+      double s = std::ldexp(1.0, 2 * r.range(-20, 20)), h = EllipticFunction::RF(x * s, y * s, z * s) * std::sqrt(s); if (!(relerr(h, (q128)got) <= 4)) VIOL(c, "law:C15/elliptic/carlson/RF-homogeneity", cls, J(w).f("scale", s)); }
+    if (kind == 3 && spread <= 10) { double a = EllipticFunction::RG(y, z, x), b = EllipticFunction::RG(z, x, y); if (!(relerr(a, (q128)got) <= 32 && relerr(b, (q128)got) <= 32)) VIOL(c, "law:C15/elliptic/carlson/RG-symmetry", cls, J(w).f("perm1", a).f("perm2", b)); }
+    if (kind == 5) { double a = EllipticFunction::RJ(y, z, x, p); if (!(relerr(a, (q128)got) <= 16)) VIOL(c, "law:C15/elliptic/carlson/RJ-symmetry", cls, J(w).f("perm", a)); }
+    if (kind == 6) { double a = EllipticFunction::RD(y, x, z); if (!(relerr(a, (q128)got) <= 8)) VIOL(c, "law:C15/elliptic/carlson/RD-symmetry", cls, J(w).f("perm", a));
+      if (x > 0) { double j = EllipticFunction::RJ(x, y, z, z); if (!(relerr(j, (q128)got) <= 16)) VIOL(c, "law:C15/elliptic/carlson/RD=RJ(x,y,z,z)", cls, J(w).f("RJ", j)); } }
+    if (kind == 2) { double f = EllipticFunction::RF(x, y, y); if (!(relerr(f, (q128)got) <= 8)) VIOL(c, "law:C15/elliptic/carlson/RC=RF(x,y,y)", cls, J(w).f("RF", f)); }
   }
 }
 
